@@ -248,7 +248,10 @@ Ingest(a, v) ==
   \* ing: per group key, the first hand-over since the last completed flush of that key (a group
   \* created by it waits group_wait)
   /\ cancd' = [cancd EXCEPT
-                 !.ing = [gk \in DOMAIN @ \cup GKeys(a) |-> IF gk \in DOMAIN @ THEN @[gk] ELSE now],
+                 \* ing: per group key, the earliest instant at which a group created by the first hand-over
+                 \* since the key's last flush may flush (at once if that alert started more than group_wait ago)
+                 !.ing = [gk \in DOMAIN @ \cup GKeys(a) |-> IF gk \in DOMAIN @ THEN @[gk]
+                                                            ELSE IF v.start + Opt(gk).gw < now THEN now ELSE now + Opt(gk).gw],
                  !.refl = @ \cup {<<a, gk>> : gk \in {g \in GKeys(a) : \E x \in DOMAIN fl : fl[x].gk = g /\ a \in NamesOf(fl[x].alerts)}}]
   /\ chk' = {}
   /\ UNCHANGED <<now, cfg, sil, last, brk, fl>>
@@ -321,8 +324,7 @@ FlushBegin(ag, gk, as, tick) ==
         \cup (IF TimeMuted(gk, tick) # TimeMuted(gk, now) THEN {"DRIFT_flush_gated_at_timer_instant_not_at_flush_instant"} ELSE {})
         \* C06: a (re-)created group waits group_wait before its first flush, unless it holds an
         \* alert that started longer ago than that
-        \cup (IF ag \notin cancd.seen /\ names # {} /\ gk \in DOMAIN cancd.ing /\ cancd.ing[gk] + Opt(gk).gw > now
-                   /\ \A a \in names : Entry(as, a).start + Opt(gk).gw >= now
+        \cup (IF ag \notin cancd.seen /\ names # {} /\ gk \in DOMAIN cancd.ing /\ now < cancd.ing[gk]
                 THEN {"C06_first_flush_before_group_wait"} ELSE {})
   IN IF Dead(ag) THEN /\ chk' = {} /\ cancd' = [cancd EXCEPT !.mby = Drop(@, {gk})]
                        /\ UNCHANGED <<now, cfg, ver, sil, last, brk, fl, elig>>
@@ -513,8 +515,12 @@ Reloading(integs) ==
                            IF x \in DOMAIN cancd.dead THEN cancd.dead[x] ELSE now],
                deadgk |-> cancd.deadgk \cup {fl[x].gk : x \in DOMAIN fl}, refl |-> cancd.refl,
                \* the new dispatcher creates its groups from the provider's alerts right now
-               ing |-> [g \in DOMAIN cancd.ing \cup UNION {GKeys(a) : a \in DOMAIN ver} |->
-                          IF g \in DOMAIN cancd.ing THEN cancd.ing[g] ELSE now],
+               \* (some time from now on - loading takes a while; a group created at c by an alert that
+               \* started at s flushes at c when s + group_wait < c and at c + group_wait otherwise: never
+               \* before min(max(now, s + group_wait), now + group_wait) for the earliest such alert)
+               ing |-> [g \in UNION {GKeys(a) : a \in DOMAIN ver} |->
+                          LET ts == {Min2(Max2(now, ver[a].start + Opt(g).gw), now + Opt(g).gw) : a \in {x \in DOMAIN ver : g \in GKeys(x)}}
+                          IN CHOOSE m \in ts : \A x \in ts : m <= x],
                \* the marker of a stopped dispatcher's group may be gone or still there
                mby |-> [g \in DOMAIN cancd.mby |-> [cancd.mby[g] EXCEPT !.known = FALSE]], lastReload |-> now]
   /\ fl' = << >>
